@@ -4,11 +4,13 @@
 Require Extraction.
 Require Import ExtrOcamlBasic.
 Require Import List ZArith QArith Qcanon.
-Require Import LV.Base.CField LV.Base.QcI LV.Lin.MatL LV.Lin.LuModel LV.Lin.LuQI LV.Lin.LsSpec LV.Lin.LuQI2.
+Require Import LV.Base.CField LV.Base.QcI LV.Lin.MatL LV.Lin.LuModel LV.Lin.LuPartial LV.Lin.LuQI LV.Lin.LsSpec LV.Lin.LuQI2.
 Extraction Language OCaml.
 Set Extraction KeepSingleton.
 Extraction "models_lu2.ml"
   QI qre qim qq Qnum Qden this
   q2_lu_max q2_lu_recip q2_mldivide_max q2_mldivide_recip q2_mrdivide_max q2_mrdivide_recip
-  q2_minverse_max q2_minverse_recip q2_ls_solve
+  q2_minverse_max q2_minverse_recip q2_ls_solve q2_ls_lu
+  q2_lu_c_max q2_lu_c_recip q2_mldivide_c_max q2_mldivide_c_recip q2_mrdivide_c_max q2_mrdivide_c_recip
+  q2_minverse_c_max q2_minverse_c_recip
   lu_a lu_ri lu_d lu_pivots lu_cands.
